@@ -272,6 +272,11 @@ class Engine(
                     # Deduplication upstream.
                     return select
             case Projection():
+                if operation.columns == select.columns:
+                    # Nothing to remove (the factories never get here with
+                    # such a Projection, but conform() of a hand-built tree
+                    # can): in particular this cannot lose any row order.
+                    return select
                 if select.has_deduplication:
                     # There was a Duplication upstream, so we need to ensure
                     # that is applied before this Projection via a nested
